@@ -91,7 +91,15 @@ def fields(W, S):
 
 
 def same_state(W, S, S2, label):
-    a, b = fields(W, S), fields(W, S2)
+    which = 'live'
+    try:
+        a = fields(W, S)
+        which = 'restored'
+        b = fields(W, S2)
+    except (IndexError, ValueError, TypeError, KeyError, AttributeError) as e:
+        W.require(False, label, '%s object is not well-formed: %s: %s'
+                  % (which, type(e).__name__, str(e)[:80]))
+        return False
     names_a = [n for n, _ in a]
     names_b = [n for n, _ in b]
     W.require(names_a == names_b, label, 'different structure: %s' % (
